@@ -221,6 +221,7 @@ type Coverage struct {
 	Vacuity      map[string]int    `json:"vacuity"`
 	Bounded      []json.RawMessage `json:"bounded_standins"`
 	Failed       []Sample          `json:"failed,omitempty"`
+	VacuousGroups []string         `json:"vacuous_groups,omitempty"`
 	Contracts    map[string]string `json:"contract_files_sha256"`
 }
 
@@ -264,14 +265,21 @@ func buildReport(p *Prog, rr *RunResult, obls []*Obligation, prop, tier string, 
 	cov.Unbound = rr.Unbound
 	cov.TrustedFuncs = rr.Trusted
 	kf := loadKnownFindings(verif)
+	var coverGroups map[string]bool
 	sort.Slice(obls, func(i, j int) bool { return obls[i].Name < obls[j].Name })
 	for _, o := range obls {
 		if o.Kind == "cover" {
+			if coverGroups == nil {
+				coverGroups = map[string]bool{}
+			}
+			if _, seen := coverGroups[o.CoverGroup]; !seen {
+				coverGroups[o.CoverGroup] = false
+			}
 			if o.Res.Status == "sat" {
 				cov.Vacuity["covers_reached"]++
+				coverGroups[o.CoverGroup] = true
 			} else {
 				cov.Vacuity["covers_not_reached"]++
-				rep.EngineError = "vacuity: " + o.Name + " not reachable (" + o.Res.Status + ")"
 			}
 			continue
 		}
@@ -324,6 +332,17 @@ func buildReport(p *Prog, rr *RunResult, obls []*Obligation, prop, tier string, 
 	}
 	if cov.Obligations == 0 {
 		rep.EngineError = "vacuity: no obligations generated for " + prop
+	}
+	var vac []string
+	for g, ok := range coverGroups {
+		if !ok {
+			vac = append(vac, g)
+		}
+	}
+	sort.Strings(vac)
+	cov.VacuousGroups = vac
+	if len(vac) > 0 {
+		rep.EngineError = fmt.Sprintf("vacuity: %d clause premises / functions have no reachable witness: %s", len(vac), strings.Join(vac, "; "))
 	}
 	// samples: slowest + a few
 	byTime := append([]*Obligation{}, obls...)
